@@ -19,7 +19,7 @@ import (
 
 // C09: priority cli > env > JSON (file named by -config, else CFG_CONFIG_B64) > tag default.
 //
-//	E <vec> <cfgfile> <b64set> <ok> <rest> <help> <n>
+//	E <intsize> <vec> <cfgfile> <b64set> <ok> <rest> <help> <n>
 //	  { <kind> <group> <goname> <tag> <hname> <hdef> <bound> <usage> <init> <envhand> <envobs> <env> <jfile> <jb64> <final> <oracle> }*n
 //
 // group/goname/tag: where the field sits and its `flag` tag (the model derives name, default, usage and env name from
@@ -109,6 +109,80 @@ type c09C struct {
 	U       uint64        `flag:"u64c"`
 }
 
+// ---- struct types D1, D2, D3: ONE named block type reached at three different field paths (process-global
+// per-type caches must not leak the first path's env names into the others)
+type C09Block struct {
+	Host string `flag:"host,localhost,block host"`
+	Port int    `flag:"port,5432"`
+	TLS  bool
+	Key  []byte        `flag:"key"`
+	Wait time.Duration `flag:"wait,2s"`
+}
+
+type c09D1 struct {
+	Primary C09Block
+}
+
+type c09D2 struct {
+	Extra   uint64 `flag:"extra,9"`
+	Replica C09Block
+}
+
+type c09Wrap struct {
+	Inner C09Block
+}
+
+type c09D3 struct {
+	Outer c09Wrap
+	Ratio float64 `flag:"ratio3"`
+}
+
+func c09BlockFields(path, env string) []c09Field {
+	return []c09Field{
+		{"string", "host", path + ".Host", env + "_HOST", "localhost", ""},
+		{"int", "port", path + ".Port", env + "_PORT", "5432", ""},
+		{"bool", "tls", path + ".TLS", env + "_TLS", "", ""},
+		{"bytes", "key", path + ".Key", env + "_KEY", "", ""},
+		{"duration", "wait", path + ".Wait", env + "_WAIT", "2s", ""},
+	}
+}
+
+var c09FieldsD1 = c09BlockFields("Primary", "CFG_PRIMARY")
+var c09FieldsD2 = append([]c09Field{{"uint64", "extra", "Extra", "CFG_EXTRA", "9", ""}}, c09BlockFields("Replica", "CFG_REPLICA")...)
+var c09FieldsD3 = append(c09BlockFields("Outer.Inner", "CFG_OUTER_INNER"), c09Field{"float64", "ratio3", "Ratio", "CFG_RATIO", "", ""})
+
+var c09Makers = []func() any{
+	func() any { return &c09A{} }, func() any { return &c09B{} }, func() any { return &c09C{} },
+	func() any { return &c09D1{} }, func() any { return &c09D2{} }, func() any { return &c09D3{} },
+}
+
+// c09Prefill makes every field of the struct non-zero (a live config that is parsed again, a pre-filled literal):
+// NewFlagSet must reset every field to its tag default ("" = zero value).
+func c09Prefill(v reflect.Value) {
+	for i := 0; i < v.NumField(); i++ {
+		f := v.Field(i)
+		if !f.CanSet() {
+			continue
+		}
+		switch f.Kind() {
+		case reflect.Struct:
+			c09Prefill(f)
+		case reflect.Bool:
+			f.SetBool(true)
+		case reflect.Int, reflect.Int64:
+			f.SetInt(-77)
+		case reflect.Uint, reflect.Uint64:
+			f.SetUint(77)
+		case reflect.String:
+			f.SetString("STALE")
+		case reflect.Float64:
+			f.SetFloat(7.75)
+		case reflect.Slice:
+			f.SetBytes([]byte("STALE"))
+		}
+	}
+}
+
 type c09Field struct {
 	kind, name, goPath, env, def string
 	jsonPath                     string // key path in the JSON document when it differs from goPath; "-" = not settable by JSON
@@ -185,13 +259,21 @@ func c09Parse(kind, s string) (canon string, ok bool) {
 		if s == "" {
 			return "0", true
 		}
-		v, err := strconv.ParseInt(s, 0, 64)
+		bits := 64
+		if kind == "int" {
+			bits = strconv.IntSize
+		}
+		v, err := strconv.ParseInt(s, 0, bits)
 		return strconv.FormatInt(v, 10), err == nil
 	case "uint", "uint64":
 		if s == "" {
 			return "0", true
 		}
-		v, err := strconv.ParseUint(s, 0, 64)
+		bits := 64
+		if kind == "uint" {
+			bits = strconv.IntSize
+		}
+		v, err := strconv.ParseUint(s, 0, bits)
 		return strconv.FormatUint(v, 10), err == nil
 	case "string":
 		return s, true
@@ -401,7 +483,8 @@ func optHex(p *string) string {
 var c09EnvMu sync.Mutex
 
 type c09Case struct {
-	typ      int // 0 = A, 1 = B, 2 = C
+	typ      int  // index into c09Makers: A, B, C, D1, D2, D3
+	prefill  bool // the struct handed to NewFlagSet is not all-zero
 	help     []string // occurrences of the built-in -help on the command line
 	fields   []c09Field
 	ch       []c09Choice
@@ -525,16 +608,11 @@ func c09Run(e *hk.Env, g *c09Gen, c *c09Case, dir string) (line []string, ok boo
 		setenv("CFG_HELP", "true")
 	}
 
-	var ptr any
-	switch c.typ {
-	case 0:
-		ptr = &c09A{}
-	case 1:
-		ptr = &c09B{}
-	default:
-		ptr = &c09C{}
-	}
+	ptr := c09Makers[c.typ]()
 	val := reflect.ValueOf(ptr).Elem()
+	if c.prefill {
+		c09Prefill(val)
+	}
 	inits := make([]string, len(c.fields))
 	var fs *config.FlagSet
 	var perr error
@@ -575,9 +653,9 @@ func c09Run(e *hk.Env, g *c09Gen, c *c09Case, dir string) (line []string, ok boo
 	if ok {
 		help = map[bool]string{false: "0", true: "1"}[fs.ShowUsage()]
 	}
-	line = []string{"E", joinHex(vec), cf, map[bool]string{false: "0", true: "1"}[c.useB64], map[bool]string{false: "0", true: "1"}[ok], rest, help, strconv.Itoa(len(c.fields))}
+	line = []string{"E", strconv.Itoa(strconv.IntSize), joinHex(vec), cf, map[bool]string{false: "0", true: "1"}[c.useB64], map[bool]string{false: "0", true: "1"}[ok], rest, help, strconv.Itoa(len(c.fields))}
 	if c.useFile && c.fileGone {
-		line[2] = hk.Hxs(cfgPath + ".missing") // the model's file oracle knows no such file
+		line[3] = hk.Hxs(cfgPath + ".missing") // the model's file oracle knows no such file
 		// (the command line carries cfgPath, which does not exist either)
 	}
 	for i, f := range c.fields {
@@ -705,7 +783,7 @@ func runC09(e *hk.Env) error {
 	r := g.r
 
 	// decoy files: what a Parse that took the config path from the environment would read
-	allFields := [][]c09Field{c09FieldsA, c09FieldsB, c09FieldsC}
+	allFields := [][]c09Field{c09FieldsA, c09FieldsB, c09FieldsC, c09FieldsD1, c09FieldsD2, c09FieldsD3}
 	for ti, fields := range allFields {
 		m := map[string]any{}
 		for _, f := range fields {
@@ -732,9 +810,13 @@ func runC09(e *hk.Env) error {
 	kindCombo := map[string]map[string]int{}
 	carrierHist := map[string]int{}
 	distinct := map[string]struct{}{}
+	prefilled := 0
 	emit := func(c *c09Case) {
 		line, ok, note := c09Run(e, g, c, dir)
 		total++
+		if c.prefill {
+			prefilled++
+		}
 		if line == nil {
 			e.Case("VIOL", "C09", "panic", hk.Hxs(note))
 			return
@@ -784,7 +866,7 @@ func runC09(e *hk.Env) error {
 
 	mk := func(typ int) *c09Case {
 		g.allowInvalid = r.Chance(12)
-		c := &c09Case{typ: typ, fields: allFields[typ]}
+		c := &c09Case{typ: typ, fields: allFields[typ], prefill: r.Chance(40)}
 		if r.Chance(25) {
 			c.help = [][]string{{"-help"}, {"--help=false"}, {"-help=1"}, {"-help="}, {"-help", "--help=0"}, {"--help=F", "-help"}}[r.Intn(6)]
 		}
@@ -824,7 +906,14 @@ func runC09(e *hk.Env) error {
 	if e.Thorough() {
 		rounds, nRandom = 12, 40000
 	}
-	for tb := 0; tb < 3; tb++ {
+	// the struct types in a seeded order: FlagSets of types sharing a nested block type are built in varying order
+	order := []int{0, 1, 2, 3, 4, 5}
+	for i := len(order) - 1; i > 0; i-- {
+		j := r.Intn(i + 1)
+		order[i], order[j] = order[j], order[i]
+	}
+	e.Stats["type_order"] = order
+	for _, tb := range order {
 		nf := len(allFields[tb])
 		for fi := 0; fi < nf; fi++ {
 			for combo := 0; combo < 8; combo++ {
@@ -856,7 +945,7 @@ func runC09(e *hk.Env) error {
 	e.Stats["enumerated_cases"] = total
 	// (2) targeted shapes: env set but empty without cli; cli/env text identical to the default text while JSON says otherwise
 	t1 := total
-	for tb := 0; tb < 3; tb++ {
+	for tb := 0; tb < len(allFields); tb++ {
 		nf := len(allFields[tb])
 		for fi := 0; fi < nf; fi++ {
 			for car := 0; car < 3; car++ {
@@ -913,7 +1002,7 @@ func runC09(e *hk.Env) error {
 	e.Stats["targeted_cases"] = total - t1
 	// (3) random across fields
 	for i := 0; i < nRandom; i++ {
-		c := mk([]int{0, 0, 0, 1, 2}[r.Intn(5)])
+		c := mk([]int{0, 0, 0, 1, 2, 3, 4, 5, 3, 4, 5}[r.Intn(11)])
 		carriers(c, r.Intn(4))
 		if c.useFile && r.Chance(4) {
 			c.fileGone = true
@@ -930,6 +1019,9 @@ func runC09(e *hk.Env) error {
 	e.Stats["field_source_combinations(cli,env,json,default)"] = comboHist
 	e.Stats["per_kind_combinations"] = kindCombo
 	e.Stats["carriers"] = carrierHist
-	e.Stats["fields_per_case"] = map[string]int{"typeA": len(c09FieldsA), "typeB": len(c09FieldsB), "typeC": len(c09FieldsC)}
+	e.Stats["fields_per_case"] = map[string]int{"typeA": len(c09FieldsA), "typeB": len(c09FieldsB), "typeC": len(c09FieldsC),
+		"typeD1": len(c09FieldsD1), "typeD2": len(c09FieldsD2), "typeD3": len(c09FieldsD3)}
+	e.Stats["prefilled_structs"] = prefilled
+	e.Stats["int_size"] = strconv.IntSize
 	return nil
 }
